@@ -1,6 +1,7 @@
 package props
 
 import (
+	"fmt"
 	"regexp"
 	"strings"
 	"testing"
@@ -71,17 +72,34 @@ func checkC11(h *harness.H, ci interface{}) *harness.Failure {
 				return harness.Failf("syntax error without a position: %q\ninput: %q", r.ParseErr, short(c.Text, 300))
 			}
 		}
+		// Size-driven shapes: compare n with 2n right away (cheap), so that super-linear behaviour is
+		// noticed long before it exceeds any absolute bound; the verdict still comes from the
+		// experiment run alone.
+		if c.Scale != nil && c.Scale.Count >= 64 && r.ParseOK == r.ParseOK {
+			r2 := h.Call(0, &wire.Req{Op: "parse", Text: c.Scale.Build(2 * c.Scale.Count)}, 120*time.Second)
+			if r2.Outcome == pool.OK {
+				t1, t2 := time.Duration(r.ParseCPUUs)*time.Microsecond, time.Duration(r2.Resp.ParseCPUUs)*time.Microsecond
+				h.S.Count("doubling_probe")
+				if t2 > 150*time.Millisecond && t1 > 0 && float64(t2)/float64(t1) > 3.2 {
+					super, desc, ok := scalingExperiment(h, c.Scale)
+					if ok && super {
+						return harness.Failf("parsing time grows faster than linearly for %s inputs: %s\ninput: %q", c.Kind, desc, short(c.Text, 300))
+					}
+					h.S.Count("doubling_probe_not_confirmed")
+				}
+			}
+		}
 		// Thread CPU time, so that a busy machine cannot make a parse look slow. The absolute bound is
 		// only a trigger: contention still inflates CPU time, so the verdict comes from a scaling
 		// experiment (same shape at n and 2n, measured back to back in a fresh worker).
 		if d := time.Duration(r.ParseCPUUs) * time.Microsecond; d > parseBound(len(c.Text)) {
 			if c.Scale != nil && c.Scale.Count >= 8 {
-				ratio, t1, t2, ok := scalingExperiment(h, c.Scale)
+				super, desc, ok := scalingExperiment(h, c.Scale)
 				if !ok {
 					return &harness.Failure{Inconclusive: true, Msg: "scaling experiment failed"}
 				}
-				if t2 > 400*time.Millisecond && ratio > 3.0 {
-					return harness.Failf("parsing time grows faster than linearly: %s input with n=%d takes %v of CPU, with n=%d it takes %v (x%.1f for twice the size; best of 3, measured alone)\ninput: %q", c.Kind, c.Scale.Count, t1, 2*c.Scale.Count, t2, ratio, short(c.Text, 300))
+				if super {
+					return harness.Failf("parsing time grows faster than linearly for %s inputs: %s\ninput: %q", c.Kind, desc, short(c.Text, 300))
 				}
 				h.S.Count("slow_but_linear")
 				return nil
@@ -120,19 +138,21 @@ func checkC11(h *harness.H, ci interface{}) *harness.Failure {
 	return harness.Failf("%s (kind %s, %d bytes)\ninput: %q\nstderr: %s", what, c.Kind, len(c.Text), short(c.Text, 400), harness.Brief(r2.Stderr))
 }
 
-// scalingExperiment parses the shape at n and 2n three times each in a fresh worker and
-// returns the ratio of the best CPU times.
-func scalingExperiment(h *harness.H, sc *gen.Scale) (ratio float64, t1, t2 time.Duration, ok bool) {
+// scalingExperiment parses the shape at n, 2n and 4n three times each in a fresh worker (best
+// CPU time of each). superLinear is true only if the time at least nearly triples at both
+// doublings and the largest parse takes more than 1.5 s: a single jump (cache or GC threshold)
+// is not enough.
+func scalingExperiment(h *harness.H, sc *gen.Scale) (superLinear bool, desc string, ok bool) {
 	w, err := pool.Start(h.Opts())
 	if err != nil {
-		return 0, 0, 0, false
+		return false, "", false
 	}
 	defer w.Kill()
 	best := func(n int) (time.Duration, bool) {
 		text := sc.Build(n)
 		b := time.Duration(0)
 		for i := 0; i < 3; i++ {
-			res := w.Call(&wire.Req{Op: "parse", Text: text}, 600*time.Second)
+			res := w.Call(&wire.Req{Op: "parse", Text: text}, 900*time.Second)
 			if res.Outcome != pool.OK {
 				return 0, false
 			}
@@ -143,13 +163,15 @@ func scalingExperiment(h *harness.H, sc *gen.Scale) (ratio float64, t1, t2 time.
 		}
 		return b, true
 	}
-	var ok1, ok2 bool
-	t1, ok1 = best(sc.Count)
-	t2, ok2 = best(2 * sc.Count)
-	if !ok1 || !ok2 || t1 <= 0 {
-		return 0, t1, t2, false
+	t1, ok1 := best(sc.Count)
+	t2, ok2 := best(2 * sc.Count)
+	t4, ok4 := best(4 * sc.Count)
+	if !ok1 || !ok2 || !ok4 || t1 <= 0 || t2 <= 0 {
+		return false, "", false
 	}
-	return float64(t2) / float64(t1), t1, t2, true
+	r1, r2 := float64(t2)/float64(t1), float64(t4)/float64(t2)
+	desc = fmt.Sprintf("n=%d: %v, n=%d: %v (x%.1f), n=%d: %v (x%.1f) of CPU time; best of 3 each, measured alone", sc.Count, t1, 2*sc.Count, t2, r1, 4*sc.Count, t4, r2)
+	return t4 > 1500*time.Millisecond && r1 > 2.8 && r2 > 2.8, desc, true
 }
 
 func TestC11(t *testing.T) {
@@ -175,5 +197,24 @@ func TestC11(t *testing.T) {
 		},
 		Check: checkC11,
 		Size:  func(c interface{}) int { return len(c.(*caseText).Text) },
+		Setup: func(h *harness.H) {
+			if h.Replay || h.ShardN != 0 {
+				return
+			}
+			// exhaustive: every text of one or two characters over the language's alphabet (plus NUL,
+			// a non-ASCII byte and a character outside the alphabet)
+			alpha := []string{"/", "\\", "*", "-", "<", ">", "=", "1", "a", "o", "(", ")", "{", "}", "[", "]", ":", ";", ",", ".", "+", "&", "%", "'", "_", " ", "\n", "\x00", "\xff", "@", "|"}
+			for _, a := range alpha {
+				for _, b := range append([]string{""}, alpha...) {
+					cs := &caseText{Text: a + b, Kind: "tiny"}
+					if f := checkC11(h, cs); f != nil && !f.Inconclusive {
+						h.Record(f, cs, len(cs.Text))
+						t.Fatalf("%s", f.Msg)
+					}
+				}
+			}
+			h.S.Count("exhaustive_1_and_2_character_texts")
+			h.S.Note("exhaustive: all 1- and 2-character texts over a 31-symbol alphabet")
+		},
 	})
 }
